@@ -151,7 +151,7 @@ CHECKS["C09"] = {
         {"pkg": _SS, "run": "^TestVerif_C09_Parallel", Q: {"timeout": 600}, T: {"timeout": 3400, "shards": 4}},
         {"pkg": _SS, "run": "^TestVerif_C09_Controlled", "inst": ["pkg/secretstore/secret_store_messages.go"], Q: {"timeout": 600}, T: {"timeout": 3400, "shards": 8}},
     ],
-    "mandatory_labels": {"all": ["parallel/overlapping-sends", "parallel/several-groups", "controlled/dfs-schedules", "controlled/contended-lock", "parallel/read-back", "controlled/read-back"]},
+    "mandatory_labels": {"all": ["parallel/overlapping-sends", "parallel/several-groups", "controlled/dfs-schedules", "controlled/contended-lock", "parallel/read-back", "controlled/read-back", "controlled/first-use"]},
 }
 
 CHECKS["C10"] = {
